@@ -46,6 +46,9 @@ structure Payload where
   bytes : Bytes
   core : Bytes
   ts : String
+  /-- the bytes unmarshal as a canonical vote/proposal with a well-formed timestamp (false only for records written by
+  something other than `saveSigned`: `check*OnlyDifferByTimestamp` panics on them) -/
+  ok : Bool := true
 deriving DecidableEq, Repr, Inhabited
 
 /-- ideal signature by the validator key: it names the message it signs -/
@@ -133,6 +136,7 @@ def decideCall (m : Rec) (q : Req) : Pc :=
     match m.sb, m.sig with
     | some lp, some ls =>
       if q.p.bytes = lp.bytes then .release q (.released ls q.p.ts q.p.bytes)
+      else if lp.ok = false then .release q .panicked
       else if q.p.core = lp.core then .release q (.released ls lp.ts lp.bytes)
       else .release q (.refused conflictCode)
     | _, _ => .release q .panicked
@@ -164,6 +168,7 @@ inductive Ev where
   | crash             -- the process dies and restarts: memory is re-read from the key file
   | crashTorn (r : Rec)  -- the process dies INSIDE the rename system call, which leaves content `r` in the key file
   | writeFails (n : Nat) -- the write of the temp file reports an error after `n` bytes (disk full, quota, I/O error)
+  | reset                -- an operator runs `unsafe_reset_priv_validator` (never admissible: it erases the record)
 deriving DecidableEq, Repr, Inhabited
 
 /-- restart: `LoadFilePV` reads the key file into the object and copies it into the shadow -/
@@ -185,6 +190,12 @@ def step (s : St) : Ev → St
     -- touched), `save()` panics with it, and the panic leaves `SignVote`/`SignProposal` before the signature is stored
     -- into the vote; the object and the shadow keep the record they were given before the save
     | .writeTemp q _ => { s with temp := none, pc := .release q .panicked, poisoned := true }
+    -- the same when the temp file cannot even be created (OpenFile error, e.g. EMFILE)
+    | .openTemp q _ => { s with temp := none, pc := .release q .panicked, poisoned := true }
+    | _ => s
+  -- `FilePV.Reset` (CLI `unsafe_reset_priv_validator`): the object's five fields are zeroed and the OBJECT is saved
+  | .reset => match s.pc with
+    | .idle => { s with mem := Rec.zero, disk := Rec.zero, persisted := Rec.zero :: s.persisted }
     | _ => s
 
 /-- what an ATOMIC rename may leave behind when the process dies inside it: the old or the new content -/
@@ -202,6 +213,7 @@ call on an object whose save panicked (the panic ends the process: the next thin
 def Ev.admissibleAt (s : St) : Ev → Prop
   | .crashTorn r => r = s.disk ∨ r = s.temp.getD s.disk
   | .req _ => s.poisoned = false
+  | .reset => False
   | _ => True
 
 def Admissible : St → List Ev → Prop
@@ -249,6 +261,14 @@ def finishFail (fails : Bool) (n : Nat) : Nat → St → St
     | .idle => s
     | .writeTemp _ _ => if fails then finish fuel (step s (.writeFails n)) else finishFail fails n fuel (tick s)
     | _ => finishFail fails n fuel (tick s)
+
+/-- the same for a failure to create the temp file -/
+def finishFailOpen : Nat → St → St
+  | 0, s => s
+  | fuel + 1, s => match s.pc with
+    | .idle => s
+    | .openTemp _ _ => finish fuel (step s (.writeFails 0))
+    | _ => finishFailOpen fuel (tick s)
 
 /-- a whole call without interruption -/
 def call (s : St) (q : Req) : St := finish 16 (step s (.req q))
